@@ -297,6 +297,7 @@ func checkC01(c *Ctx) {
 		c.c01Sibling(fo)
 	}
 	c.c01WhoMutates()
+	c.c01KeyRetention()
 }
 
 func (c *Ctx) c01Sibling(fo *FO) {
@@ -577,6 +578,13 @@ func abs(x int) int {
 		return -x
 	}
 	return x
+}
+
+// c01KeyRetention: the registry is keyed by the bytes the caller passed; a goroutine that still reads the caller's buffer after the
+// call returned (in Get or in any other key-taking function of the frontends) registers / releases whatever the buffer holds by
+// then — another key's lock (obligations of C09 R09.1).
+func (c *Ctx) c01KeyRetention() {
+	c.borrowKinds("C09", func() { c.c09Retention() }, "R01.5", "key-taking functions:no-use-after-return", []string{"R09.1"}, "used-in-goroutine", "read-in-goroutine")
 }
 
 // c01WhoMutates: keyLocks insert/delete and close of a key-lock channel occur only inside the sibling's Get.
